@@ -281,6 +281,13 @@ func c20FreePort() int {
 			continue
 		}
 		l.Close()
+		if c20V6 {
+			l6, err := net.Listen("tcp", fmt.Sprintf("[::1]:%d", port))
+			if err != nil {
+				continue
+			}
+			l6.Close()
+		}
 		return port
 	}
 	l, err := net.Listen("tcp", "127.0.0.1:0")
@@ -290,6 +297,17 @@ func c20FreePort() int {
 	defer l.Close()
 	return l.Addr().(*net.TCPAddr).Port
 }
+
+var c20V6 = func() bool {
+	l, err := net.Listen("tcp", "[::1]:0")
+	if err != nil {
+		return false
+	}
+	l.Close()
+	return true
+}()
+
+func c20HasV6() bool { return c20V6 }
 
 func TestC20(t *testing.T) {
 	pool := ids.Routable()
@@ -347,18 +365,24 @@ func TestC20(t *testing.T) {
 			return st
 		}
 		A, B := mk("A", pool[ia]), mk("B", pool[ib])
+		// Loopback is 127.0.0.1 or, where the machine has it, the IPv6 literal [::1].
+		host := "127.0.0.1"
+		if c20HasV6() && c.Chance("loopback.v6", 1, 3) {
+			host = "[::1]"
+			c.Class("loopback-ipv6-literal")
+		}
 		portA := c20FreePort()
-		A.Router.Listen = []string{fmt.Sprintf("tcp://127.0.0.1:%d", portA)}
+		A.Router.Listen = []string{fmt.Sprintf("tcp://%s:%d", host, portA)}
 		if c.Bool("A.second-listener") {
 			A.Router.Listen = append(A.Router.Listen, fmt.Sprintf("tcp://127.0.0.1:%d", c20FreePort()))
 		}
-		B.Router.Connect = []string{fmt.Sprintf("tcp://127.0.0.1:%d", portA)}
+		B.Router.Connect = []string{fmt.Sprintf("tcp://%s:%d", host, portA)}
 		mutual := false
 		if c.Chance("B.listens", 2, 3) {
 			portB := c20FreePort()
-			B.Router.Listen = []string{fmt.Sprintf("tcp://127.0.0.1:%d", portB)}
+			B.Router.Listen = []string{fmt.Sprintf("tcp://%s:%d", host, portB)}
 			if c.Chance("mutual", 2, 3) {
-				A.Router.Connect = []string{fmt.Sprintf("tcp://127.0.0.1:%d", portB)}
+				A.Router.Connect = []string{fmt.Sprintf("tcp://%s:%d", host, portB)}
 				mutual = true
 			}
 		}
@@ -376,7 +400,7 @@ func TestC20(t *testing.T) {
 		if rerr == nil {
 			_ = json.Unmarshal(rdata, &res)
 		}
-		desc := fmt.Sprintf("universe=%q secret=%v A{lite=%v stub=%v isolate=%v services=%d friends=%d state=%v api=%v listeners=%d} B{lite=%v stub=%v state=%v api=%v listens=%v} cycles=%d",
+		desc := fmt.Sprintf("host=%s ", host) + fmt.Sprintf("universe=%q secret=%v A{lite=%v stub=%v isolate=%v services=%d friends=%d state=%v api=%v listeners=%d} B{lite=%v stub=%v state=%v api=%v listens=%v} cycles=%d",
 			universe, secret != "", A.Router.Lite, A.Router.Stub, A.Router.Isolate, len(A.ServiceConfigs), len(A.FriendConfigs), A.System.StatePath != "", A.System.APIListen != "", len(A.Router.Listen),
 			B.Router.Lite, B.Router.Stub, B.System.StatePath != "", B.System.APIListen != "", len(B.Router.Listen) > 0, job.Cycles) +
 			fmt.Sprintf(" mutual=%v recheck=%v restartB=%v", job.Mutual, job.Recheck, job.RestartB)
